@@ -1240,6 +1240,9 @@ def c13_r5(ctx):
                     if norm(items.get("type", ast.Constant(0))) != f"{_MT}.SUBSCRIBE.value":
                         probs.append("type is not subscribe")
                     pl = items.get("payload")
+                    plname = strip_pre(pl).id if pl is not None and isinstance(strip_pre(pl), ast.Name) else None
+                    if plname is not None:      # the inner dict was built under a local name of its own
+                        pl = strip_pre(o.deref(strip_pre(pl)))
                     if not isinstance(pl, ast.Dict):
                         probs.append("payload.payload is not a dict literal")
                     else:
@@ -1247,6 +1250,11 @@ def c13_r5(ctx):
                         for m in (o.muts(pname) if pname else []):
                             if isinstance(m, ast.Call) and is_name(m.func, "<setitem>") and norm(allargs(m)[0]) == f"{pname}['payload']" and isinstance(allargs(m)[1], ast.Constant):
                                 pit[allargs(m)[1].value] = allargs(m)[2]
+                        for m in (o.muts(plname) if plname else []):
+                            if isinstance(m, ast.Call) and is_name(m.func, "<setitem>") and norm(allargs(m)[0]) == plname and isinstance(allargs(m)[1], ast.Constant):
+                                pit[allargs(m)[1].value] = allargs(m)[2]
+                            else:
+                                probs.append(f"the payload dict is modified by {norm(m)[:80]}")
                         if norm(pit.get("query", ast.Constant(0))) != "query":
                             probs.append("payload.query is not the query")
                         if norm(pit.get("operationName", ast.Constant(0))) != "operation_name":
